@@ -279,7 +279,7 @@ end
 /-- Paved.setValue -/
 def setValue (root : V) (segs : List Seg) (value : V) : Except E V :=
   match norm value with
-  | .error e => .error e
+  | .error _ => .error .marshal   -- "cannot marshal value to JSON"
   | .ok v =>
     if segs.any segTooBig then .error .maxIndex
     else setIn root segs v
@@ -394,8 +394,13 @@ def mergeValue (orc : List Orc) (root : V) (segs : List Seg) (value : V) (mo : O
 
 /-! ## objects after a patch: FromUnstructured -/
 
-/-- `GetObjectKind().GroupVersionKind().Kind` of an unstructured object -/
+/-- `GetObjectKind().GroupVersionKind().Kind` of an unstructured object: an apiVersion with
+more than one slash does not parse (schema.ParseGroupVersion) and yields the empty GVK. -/
 def kindOf (o : V) : String :=
+  let apiVersionOk := match o.get? "apiVersion" with
+    | some (.str a) => (a.toList.filter (· == '/')).length ≤ 1
+    | _ => true
+  if !apiVersionOk then "" else
   match o.get? "kind" with
   | some (.str s) => s
   | _ => ""
@@ -411,7 +416,7 @@ JSON round trip of the whole object, then the decoder insists on a kind (the obj
 decoded content even then). -/
 def fromUnstructured (to' : V) : Out :=
   match norm to' with
-  | .error e => ⟨to', some e⟩
+  | .error _ => ⟨to', some .marshal⟩
   | .ok n => if kindOf n == "" then ⟨n, some .kindMissing⟩ else ⟨n, none⟩
 
 /-- patchFieldValueToObject -/
@@ -456,17 +461,22 @@ decreasing_by omega
 def fmtInt (i : Int) : String :=
   if i < 0 then String.ofList ('-' :: natDigits i.natAbs) else String.ofList (natDigits i.toNat)
 
-/-- strconv.ParseInt(s, 10, 64): optional sign, decimal digits only, range checked -/
-def parseInt (s : String) : Option Int :=
-  let (neg, ds) := match s.toList with
-    | '+' :: r => (false, r)
-    | '-' :: r => (true, r)
-    | cs => (false, cs)
+def parsePos (ds : List Char) : Option Int :=
   match parseDigits ds with
   | none => none
-  | some n =>
-    if neg then (if n ≤ 2 ^ 63 then some (-(n : Int)) else none)
-    else (if n < 2 ^ 63 then some (n : Int) else none)
+  | some n => if n < 2 ^ 63 then some (n : Int) else none
+
+def parseNeg (ds : List Char) : Option Int :=
+  match parseDigits ds with
+  | none => none
+  | some n => if n ≤ 2 ^ 63 then some (-(n : Int)) else none
+
+/-- strconv.ParseInt(s, 10, 64): optional sign, decimal digits only, range checked -/
+def parseInt (s : String) : Option Int :=
+  match s.toList with
+  | '+' :: r => parsePos r
+  | '-' :: r => parseNeg r
+  | cs => parsePos cs
 
 /-- strconv.FormatBool -/
 def fmtBool (b : Bool) : String := if b then "true" else "false"
